@@ -15,7 +15,7 @@ UpdateOps == {"$set", "$setOnInsert", "$unset", "$rename", "$inc", "$mul", "$min
               "$push-each", "$push-position", "$push-sort", "$push-slice", "$addToSet-each", "$unknown", "replacement"}
 ProjOps == {"flag", "$slice", "$elemMatch", "$unknown"}
 OtherOps == {"sort", "distinct", "index-key", "index-partial", "skip-limit", "arrayFilters", "insert", "id"}
-ArgClasses == {"null", "true", "false", "zero", "negzero", "fraction", "negfraction", "tiny", "int32", "int64", "double", "negative", "nan", "inf", "ninf", "decimal", "decnan", "decinf", "huge", "string", "emptystr",
+ArgClasses == {"null", "true", "false", "zero", "negzero", "fraction", "negfraction", "tiny", "int32", "int64", "double", "negative", "nan", "inf", "ninf", "decimal", "decnan", "decinf", "huge", "minint", "minint32", "mindouble", "maxdouble", "string", "emptystr",
                "dollarstr", "dotstr", "doc", "emptydoc", "opdoc", "baddoc", "arr", "emptyarr", "arr1", "arr2", "arr3", "nestedarr", "arrdocs", "binary", "oid", "date", "ts", "regex", "deep"}
 PathShapes == {"top", "nested", "index", "bigindex", "empty", "dotted-empty", "trailing-dot", "dollar", "pos-all", "pos-id", "pos-unbound", "pos-implicit", "missing", "through-array", "id"}
 Params == JsonDeserialize("mcparams.json")
